@@ -186,7 +186,11 @@ func (g *tgen) impl() TypeDesc {
 
 // pointee: what a pointer field may point to (never a slice-kinded type).
 func (g *tgen) pointer(depth int) TypeDesc {
-	switch pick(g.t, "ptrto", 8, 8, 2, 1, 1, 1) {
+	switch pick(g.t, "ptrto", 8, 8, 2, 1, 1, 1, 3) {
+	case 6:
+		// pointer to a corpus struct: for the recursive ones the pointer codec is then requested
+		// before the struct codec, and again from inside it
+		return ptr(named(oneOf(g.t, "pcorpus", StructNames)))
 	case 0:
 		if depth < g.o.maxDepth() {
 			return ptr(g.structType(depth + 1))
@@ -218,7 +222,11 @@ func (g *tgen) pointer(depth int) TypeDesc {
 
 // elemType: element of a repeated field or value of a map.
 func (g *tgen) elemType(depth int) TypeDesc {
-	switch pick(g.t, "elem", 10, 4, 3, 2, 5, 4, 2, 2) {
+	switch pick(g.t, "elem", 10, 4, 3, 2, 5, 4, 2, 2, 2, 2) {
+	case 8:
+		return named(oneOf(g.t, "ecorpus", StructNames))
+	case 9:
+		return ptr(named(oneOf(g.t, "epcorpus", StructNames)))
 	case 0:
 		return g.scalar()
 	case 1:
